@@ -78,17 +78,43 @@ type TokenSpec struct {
 	// rp.VerifyTokens with the RP's verifier | code | handler | userinfo | refresh (see rp_test.go). The entry points
 	// other than "" receive the token in a token response of the fake OP, together with AccessTok.
 	Via string `json:"via,omitempty"`
+	// Typed: claim name -> kind of JSON value the member is present with instead of a value of the expected JSON type
+	// (see kindsOf): null, a number, a bool, an array, an object, for the time claims a string. Applied after everything
+	// else, also to members that would otherwise be absent.
+	Typed map[string]string `json:"typed,omitempty"`
+	// On: which verifier / relying party of the case the token is delivered to (only with Case.Reuse.Second): 0 = the
+	// first, 1 = the second one.
+	On int `json:"on,omitempty"`
+}
+
+// ReuseSpec is what an application that configures several verifiers / relying parties in a loop does with the option
+// slices it passes to the constructors: it keeps them, overwrites elements with the options of another configuration
+// and constructs the next verifier / relying party from them. The configuration a verifier was CONSTRUCTED with is the
+// one that applies to it; constructing another one changes nothing for the first.
+type ReuseSpec struct {
+	// Other: another generated configuration (its issuer / client id are not used: those are constructor arguments)
+	Other Config `json:"other"`
+	// Spare: spare capacity of the kept []rp.VerifierOption
+	Spare int `json:"spare,omitempty"`
+	// Writes: after the construction of the first and before any verification, kept[i mod len(kept)] = options of
+	// Other[j mod len(options of Other)] for every (i, j)
+	Writes [][2]int `json:"writes,omitempty"`
+	// Second: "" | inner: a second verifier / relying party is constructed from the kept slice(s) as they are after the
+	// writes | outer (relying party): the rp.WithVerifierOpts element of the kept []rp.Option is overwritten with
+	// rp.WithVerifierOpts(options of Other...) and a second relying party is constructed from that slice
+	Second string `json:"second,omitempty"`
 }
 
 // Step is one entry of a history on ONE verifier instance in one process: a verification, or a call of an exported helper
 // that a relying party may use between verifications.
 type Step struct {
-	Op     string     `json:"op"`                // verify | hasher | claimhash | hashstring | verifyat
+	Op     string     `json:"op"`                // verify | hasher | claimhash | hashstring | verifyat | overwrite
 	Tok    *TokenSpec `json:"tok,omitempty"`     // verify
 	Alg    string     `json:"alg,omitempty"`     // helpers: signature algorithm
 	Data   string     `json:"data,omitempty"`    // helpers: the string that is hashed / the access token
 	Use    string     `json:"use,omitempty"`     // hasher: write | write+sum | write+sum+reset; hashstring: half | full
 	AtHash string     `json:"at_hash,omitempty"` // verifyat: class of the presented at_hash
+	Writes [][2]int   `json:"writes,omitempty"`  // overwrite (only with Case.Reuse): further writes into the kept option slice, between verifications
 }
 
 type Case struct {
@@ -107,6 +133,9 @@ type Case struct {
 	// fake OP (RoundTripper); its key set is the RP's remote key set fed from the fake OP's JWKS. All verifications of the
 	// case run on this ONE RelyingParty, each through its TokenSpec.Via.
 	RP *RPSpec `json:"rp,omitempty"`
+
+	// Reuse != nil: the option slices handed to the constructors are kept, overwritten and reused by the harness
+	Reuse *ReuseSpec `json:"reuse,omitempty"`
 }
 
 // ---- generator ------------------------------------------------------------------
@@ -300,7 +329,9 @@ func trust(t *rapid.T, c *Case, tok *TokenSpec) {
 }
 
 func genTrustedToken(t *rapid.T, c *Case, atBias bool) TokenSpec {
-	tok := genToken(t, c.Cfg, atBias, genVia(t, c))
+	on, cfg := genTarget(t, c)
+	tok := genToken(t, cfg, atBias, genVia(t, c))
+	tok.On = on
 	trust(t, c, &tok)
 	return tok
 }
@@ -348,6 +379,9 @@ func genCase(t *rapid.T) Case {
 	if rapid.IntRange(0, 9).Draw(t, "rp") < 4 {
 		c.RP = genRP(t)
 	}
+	if rapid.IntRange(0, 9).Draw(t, "reuse") < 3 {
+		c.Reuse = genReuse(t, &c)
+	}
 	seq := rapid.IntRange(0, 9).Draw(t, "kind") >= 6
 	c.Tok = genTrustedToken(t, &c, seq)
 	if !seq {
@@ -360,12 +394,19 @@ func genCase(t *rapid.T) Case {
 		for j := 0; j < nh; j++ {
 			c.Steps = append(c.Steps, genHelper(t, algsOf(&c)))
 		}
+		if c.Reuse != nil && rapid.IntRange(0, 3).Draw(t, "overwrite") == 0 {
+			c.Steps = append(c.Steps, Step{Op: "overwrite", Writes: genWrites(t, 1)})
+		}
 		var tok TokenSpec
 		if rapid.IntRange(0, 4).Draw(t, "again") == 0 {
 			// an earlier token response once more (fresh signature, same claims), on an RP through any entry point
 			tok = toks[rapid.IntRange(0, len(toks)-1).Draw(t, "which")]
 			if tok.Via = genVia(t, &c); tok.Via != "" {
 				tok.WithAT = true
+			}
+			if c.Reuse != nil && c.Reuse.Second != "" {
+				// ... also by the other verifier / relying party of the case
+				tok.On = rapid.IntRange(0, 1).Draw(t, "againon")
 			}
 		} else {
 			tok = genTrustedToken(t, &c, true)
@@ -383,6 +424,9 @@ func genConcCase(t *rapid.T) Case {
 	c.Cfg = genCfg(t)
 	if rapid.IntRange(0, 9).Draw(t, "rp") < 4 {
 		c.RP = genRP(t)
+	}
+	if rapid.IntRange(0, 9).Draw(t, "reuse") < 3 {
+		c.Reuse = genReuse(t, &c)
 	}
 	c.Tok = genTrustedToken(t, &c, true)
 	k := rapid.IntRange(2, 6).Draw(t, "goroutines")
@@ -408,7 +452,7 @@ func genConcCase(t *rapid.T) Case {
 var boundaryDeltas = []int{-3600, -30, -5, -3, -2, -1, 0, 1, 2, 3, 5, 30, 3600}
 
 func mutate(t *rapid.T, cfg Config, tok *TokenSpec) {
-	dim := rapid.SampledFrom([]string{"iss", "sub", "aud", "azp", "exp", "iat", "auth_time", "nonce", "acr", "at_hash", "aud", "azp", "exp", "iat"}).Draw(t, "dim")
+	dim := rapid.SampledFrom([]string{"iss", "sub", "aud", "azp", "exp", "iat", "auth_time", "nonce", "acr", "at_hash", "aud", "azp", "exp", "iat", "type", "type"}).Draw(t, "dim")
 	off := cfg.OffsetS
 	if off < 0 {
 		off = 1
@@ -466,6 +510,15 @@ func mutate(t *rapid.T, cfg Config, tok *TokenSpec) {
 	case "at_hash":
 		tok.WithAT = true
 		tok.AtHash = rapid.SampledFrom([]string{"absent", "correct", "otheralg", "full", "othertoken", "junk", "empty"}).Draw(t, "athash")
+	case "type":
+		name := rapid.SampledFrom(typedClaims).Draw(t, "typedclaim")
+		if tok.Typed == nil {
+			tok.Typed = map[string]string{}
+		}
+		tok.Typed[name] = rapid.SampledFrom(kindsOf(name)).Draw(t, "typedkind")
+		if name == "at_hash" && rapid.IntRange(0, 3).Draw(t, "typedwithat") > 0 {
+			tok.WithAT = true // at_hash only speaks when the ID token comes with an access token
+		}
 	}
 }
 
@@ -591,6 +644,7 @@ func buildPayload(tok TokenSpec, now time.Time) (map[string]any, []byte) {
 			}
 		}
 	}
+	applyTyped(m, tok, now)
 	b, _ := json.Marshal(m)
 	return m, b
 }
@@ -639,13 +693,24 @@ func model(cfg Config, tok TokenSpec, keyOK bool, via string) (verdict int, reje
 	rej := func(s string) { reject = append(reject, s) }
 	gry := func(s string) { grey = append(grey, s) }
 
-	if tok.Iss == nil || *tok.Iss != cfg.Issuer {
-		rej("iss")
+	// JSON null = absent; mist = members that are present with a value of another JSON type than the expected one
+	// (see typed_test.go): such a token is never must-accept
+	tok, mist, mistNames := splitTyped(tok)
+	for _, name := range mistNames {
+		gry("type:" + name)
 	}
-	if tok.Sub == nil || *tok.Sub == "" {
+	is := func(name string) bool { _, ok := mist[name]; return ok }
+
+	if is("iss") || tok.Iss == nil || *tok.Iss != cfg.Issuer {
+		rej("iss") // whatever the member is, it does not name the issuer
+	}
+	if !is("sub") && (tok.Sub == nil || *tok.Sub == "") {
 		rej("sub")
 	}
-	a := audOf(tok)
+	a := audOf(tok) // the string members
+	if is("aud") && !strings.HasPrefix(mist["aud"], "mixed") {
+		a = nil // a number / bool / object / array of arrays lists no client id
+	}
 	if !contains(a, cfg.ClientID) {
 		rej("aud")
 	}
@@ -653,10 +718,10 @@ func model(cfg Config, tok TokenSpec, keyOK bool, via string) (verdict int, reje
 	if tok.Azp != nil {
 		azp = *tok.Azp
 	}
-	if azp != "" && azp != cfg.ClientID {
-		rej("azp-mismatch")
+	if is("azp") || (azp != "" && azp != cfg.ClientID) {
+		rej("azp-mismatch") // present and not the client id
 	}
-	if len(a) > 1 && azp == "" {
+	if len(a) > 1 && azp == "" && !is("azp") {
 		rej("azp-missing")
 	}
 	// signature
@@ -667,7 +732,9 @@ func model(cfg Config, tok TokenSpec, keyOK bool, via string) (verdict int, reje
 		rej("key")
 	}
 	// expiration: must hold exp > now; configured offset is extra strictness the code documents
-	if tok.Exp.Absent {
+	if is("exp") {
+		// not decided
+	} else if tok.Exp.Absent {
 		rej("exp-absent")
 	} else {
 		switch {
@@ -678,7 +745,9 @@ func model(cfg Config, tok TokenSpec, keyOK bool, via string) (verdict int, reje
 			gry("exp-window")
 		}
 	}
-	if tok.Iat.Absent {
+	if is("iat") {
+		// not decided
+	} else if tok.Iat.Absent {
 		rej("iat-absent")
 	} else {
 		switch {
@@ -707,11 +776,11 @@ func model(cfg Config, tok TokenSpec, keyOK bool, via string) (verdict int, reje
 	}
 	switch cfg.NonceMode {
 	case "default":
-		if tok.Nonce != nil && *tok.Nonce != "" {
+		if is("nonce") || (tok.Nonce != nil && *tok.Nonce != "") {
 			rejNonce()
 		}
 	case "fixed", "ctx":
-		if tok.Nonce == nil || *tok.Nonce != cfg.Nonce {
+		if is("nonce") || tok.Nonce == nil || *tok.Nonce != cfg.Nonce {
 			rejNonce()
 		}
 	}
@@ -720,11 +789,11 @@ func model(cfg Config, tok TokenSpec, keyOK bool, via string) (verdict int, reje
 		if tok.Acr != nil {
 			acr = *tok.Acr
 		}
-		if !contains(cfg.ACR, acr) {
+		if is("acr") || !contains(cfg.ACR, acr) {
 			rej("acr")
 		}
 	}
-	if cfg.MaxAuthS > 0 {
+	if cfg.MaxAuthS > 0 && !is("auth_time") {
 		if tok.AuthTime.Absent {
 			rej("auth_time-absent")
 		} else {
@@ -738,9 +807,13 @@ func model(cfg Config, tok TokenSpec, keyOK bool, via string) (verdict int, reje
 		}
 	}
 	if tok.WithAT || via != "" {
-		switch tok.AtHash {
-		case "otheralg", "full", "othertoken", "junk":
-			rej("at_hash")
+		if is("at_hash") {
+			rej("at_hash") // present and not the left-half hash of the access token
+		} else {
+			switch tok.AtHash {
+			case "otheralg", "full", "othertoken", "junk":
+				rej("at_hash")
+			}
 		}
 	}
 	if via != "" && tok.AccessTok == "" {
@@ -817,58 +890,70 @@ func kidOf(c Case, keyName string) string {
 	return keyName
 }
 
-// verifierOpts: the configuration as verifier options (withAlgs=false: the allowed algorithms come another way).
-func verifierOpts(c Case, withAlgs bool) []rp.VerifierOption {
-	var opts []rp.VerifierOption
-	if c.Cfg.OffsetS >= 0 {
-		opts = append(opts, rp.WithIssuedAtOffset(time.Duration(c.Cfg.OffsetS)*time.Second))
-	}
-	if c.Cfg.MaxIATS > 0 {
-		opts = append(opts, rp.WithIssuedAtMaxAge(time.Duration(c.Cfg.MaxIATS)*time.Second))
-	}
-	if c.Cfg.MaxAuthS > 0 {
-		opts = append(opts, rp.WithAuthTimeMaxAge(time.Duration(c.Cfg.MaxAuthS)*time.Second))
-	}
-	switch c.Cfg.NonceMode {
-	case "fixed":
-		n := c.Cfg.Nonce
-		opts = append(opts, rp.WithNonce(func(context.Context) string { return n }))
-	case "ctx":
-		// what WithNonce's context parameter is for: the application stores the nonce of the authentication request in
-		// the context it hands to the library (every call of the harness carries it, see callContext)
-		opts = append(opts, rp.WithNonce(func(ctx context.Context) string {
-			n, _ := ctx.Value(nonceKey{}).(string)
-			return n
-		}))
-	case "nil":
-		opts = append(opts, rp.WithNonce(nil))
-	}
-	if c.Cfg.ACR != nil {
-		opts = append(opts, rp.WithACRVerifier(oidc.DefaultACRVerifier(c.Cfg.ACR)))
-	}
-	if c.Cfg.Algs != nil && withAlgs {
-		opts = append(opts, rp.WithSupportedSigningAlgorithms(c.Cfg.Algs...))
-	}
-	return opts
+// sut: the verifier(s) under test - on their own (public constructor), or inside a RelyingParty. With Case.Reuse there
+// may be two of them, constructed one after the other from option slices the caller keeps and overwrites.
+type sut struct {
+	vs      []*rp.IDTokenVerifier // verifiers on their own
+	parties []rp.RelyingParty
+	cfgs    []Config // the configuration each was constructed with
+	op      *fakeOP
+	keep    *keep
 }
 
-// sut: the verifier under test - on its own (public constructor), or inside a RelyingParty.
-type sut struct {
-	v     *rp.IDTokenVerifier
-	party rp.RelyingParty
-	op    *fakeOP
+// verifier: as an application gets at it when it needs it.
+func (s *sut) verifier(on int) *rp.IDTokenVerifier {
+	if s.parties != nil {
+		return s.parties[on].IDTokenVerifier()
+	}
+	return s.vs[on]
+}
+
+func (s *sut) party(on int) rp.RelyingParty {
+	if s.parties == nil {
+		return nil
+	}
+	return s.parties[on]
 }
 
 func newSUT(c Case) (*sut, error) {
-	if c.RP == nil {
-		return &sut{v: rp.NewIDTokenVerifier(c.Cfg.Issuer, c.Cfg.ClientID, keySet(c), verifierOpts(c, true)...)}, nil
+	s := &sut{keep: newKeep(c), cfgs: planOf(c).cfgs}
+	k := s.keep
+	construct := func() error {
+		if c.RP == nil {
+			s.vs = append(s.vs, rp.NewIDTokenVerifier(c.Cfg.Issuer, c.Cfg.ClientID, keySet(c), k.inner...))
+			return nil
+		}
+		party, err := rp.NewRelyingPartyOIDC(context.Background(), c.Cfg.Issuer, c.Cfg.ClientID, "secret", "https://rp.example.com/callback",
+			[]string{"openid", "offline_access"}, k.outer...)
+		if err != nil {
+			return err
+		}
+		s.parties = append(s.parties, party)
+		return nil
 	}
-	s := &sut{op: newFakeOP(c)}
-	party, err := newParty(c, s.op)
-	if err != nil {
+	if c.RP != nil {
+		s.op = newFakeOP(c)
+		k.outer = partyOpts(c, s.op, k.inner)
+	}
+	if err := construct(); err != nil {
 		return nil, err
 	}
-	s.party, s.v = party, party.IDTokenVerifier()
+	if c.Reuse == nil {
+		return s, nil
+	}
+	// the caller goes on to its next configuration
+	k.overwrite(c.Reuse.Writes)
+	switch secondOf(c) {
+	case "inner":
+		if err := construct(); err != nil {
+			return nil, err
+		}
+	case "outer":
+		k.outer[outerVerifierOpts] = rp.WithVerifierOpts(k.otherOpts...)
+		if err := construct(); err != nil {
+			return nil, err
+		}
+	}
 	return s, nil
 }
 
@@ -878,14 +963,17 @@ type built struct {
 	token string
 	t0    time.Time
 	via   string
+	on    int    // the verifier / relying party of the case it goes to
+	cfg   Config // the configuration that one was constructed with
 	prep  prepared
 }
 
 // buildToken signs the token and sets up its delivery (fake OP answer, callback request).
 func buildToken(c Case, s *sut, tok *TokenSpec, t0 time.Time) built {
 	pm, payload := buildPayload(*tok, t0)
-	b := built{pm: pm, token: vkit.MustSignJWT(tok.Alg, tok.Key, vkit.Key(tok.Key), payload), t0: t0, via: viaOf(c, tok)}
-	b.prep = prepare(c, s, b.via, tok, b.token)
+	b := built{pm: pm, token: vkit.MustSignJWT(tok.Alg, tok.Key, vkit.Key(tok.Key), payload), t0: t0, via: viaOf(c, tok), on: onOf(c, tok)}
+	b.cfg = s.cfgs[b.on]
+	b.prep = prepare(b.cfg, s.party(b.on), b.via, tok, b.token)
 	return b
 }
 
@@ -911,11 +999,11 @@ func execVerify(s *sut, tok *TokenSpec, b *built) (o outcome) {
 	case b.prep.err != nil:
 		o.err = b.prep.err
 	case b.via != "":
-		o.claims, o.err = deliver(s, b.via, b.prep)
+		o.claims, o.err = deliver(s.party(b.on), b.via, b.prep)
 	case tok.WithAT:
-		o.claims, o.err = rp.VerifyTokens[*oidc.IDTokenClaims](b.prep.ctx, tok.AccessTok, b.token, s.v)
+		o.claims, o.err = rp.VerifyTokens[*oidc.IDTokenClaims](b.prep.ctx, tok.AccessTok, b.token, s.verifier(b.on))
 	default:
-		o.claims, o.err = rp.VerifyIDToken[*oidc.IDTokenClaims](b.prep.ctx, b.token, s.v)
+		o.claims, o.err = rp.VerifyIDToken[*oidc.IDTokenClaims](b.prep.ctx, b.token, s.verifier(b.on))
 	}
 	return o
 }
@@ -978,7 +1066,7 @@ func judgeVerify(res *vkit.Result, c Case, tok TokenSpec, b built, o outcome, wh
 		return stepInfo{Op: "verify"}
 	}
 	via := b.via
-	verdict, reject, grey := model(c.Cfg, tok, contains(c.Trusted, tok.Key), via)
+	verdict, reject, grey := model(b.cfg, tok, contains(c.Trusted, tok.Key), via)
 	if b.prep.err != nil {
 		// the harness could not set the delivery up (login redirect of the RP did not hand out cookies): nothing was verified
 		res.Label("delivery-not-set-up")
@@ -1023,8 +1111,15 @@ func judgeVerify(res *vkit.Result, c Case, tok TokenSpec, b built, o outcome, wh
 		if claims == nil {
 			res.Fail("C01:no-claims", "%sneither claims nor an error returned", where)
 		} else {
-			got := normJSON(claims)
-			want := normJSON(b.pm)
+			got := normJSON(claims).(map[string]any)
+			want := normJSON(b.pm).(map[string]any)
+			for name, kind := range tok.Typed {
+				if kind != "null" {
+					// what a tolerant decoder hands back for a member of another JSON type is not decided by the statement
+					delete(got, name)
+					delete(want, name)
+				}
+			}
 			if !reflect.DeepEqual(got, want) {
 				gb, _ := json.Marshal(got)
 				wb, _ := json.Marshal(want)
@@ -1039,13 +1134,15 @@ func judgeVerify(res *vkit.Result, c Case, tok TokenSpec, b built, o outcome, wh
 			res.Fail("C01:claims-on-error", "%sclaims returned together with error %v", where, err)
 		}
 	}
-	labelNeighbours(res, c.Cfg, tok, verdict)
+	labelNeighbours(res, b.cfg, tok, verdict)
 	labelVia(res, c, via, verdict, reject)
+	labelTyped(res, tok, verdict)
+	labelReuse(res, c, tok, b, verdict)
 
 	nm := len(reject) + len(grey)
 	return stepInfo{Op: "verify", Accepted: accepted, Model: verdict, Reject: reject, Grey: grey, Via: via,
 		nontriv: nm >= 2 || len(grey) > 0 || len(audOf(tok)) > 1,
-		key:     "via=" + via + " " + tokKey(tok, verdict, reject, grey)}
+		key:     "via=" + via + fmt.Sprintf(" on=%d ", b.on) + tokKey(tok, verdict, reject, grey)}
 }
 
 // labelVia: the entry point classes; sole:<condition> = tokens that violate exactly one condition, i.e. the ones that
@@ -1068,6 +1165,36 @@ func labelVia(res *vkit.Result, c Case, via string, verdict int, reject []string
 	}
 	if c.RP.Cookies != "" && (via == viaHandler || via == viaUserinfo) {
 		res.Label("rp:handler-with-" + c.RP.Cookies + "-cookies")
+	}
+}
+
+var verdictName = map[int]string{1: "must-accept", -1: "must-reject", 0: "grey"}
+
+// labelTyped: members present with another JSON type (or null).
+func labelTyped(res *vkit.Result, tok TokenSpec, verdict int) {
+	if len(tok.Typed) == 0 {
+		return
+	}
+	res.Label("type:any/" + verdictName[verdict])
+	for name, kind := range tok.Typed {
+		res.Label("type:" + name + "=" + kind)
+	}
+}
+
+// labelReuse: kept option slices. differs = the configuration the verifier was constructed with and the one the
+// caller's slice describes at that moment give this token different verdicts (these tokens tell the two apart).
+func labelReuse(res *vkit.Result, c Case, tok TokenSpec, b built, verdict int) {
+	if c.Reuse == nil {
+		return
+	}
+	p := planOf(c)
+	res.Label(fmt.Sprintf("reuse:on=%d/%s", b.on, verdictName[verdict]))
+	other := p.now
+	if b.on == 1 {
+		other = p.cfgs[0]
+	}
+	if v2, _, _ := model(other, tok, contains(c.Trusted, tok.Key), b.via); v2 != verdict && v2 != 0 && verdict != 0 {
+		res.Label(fmt.Sprintf("reuse:on=%d/verdict-differs-under-the-other-configuration/%s", b.on, verdictName[verdict]))
 	}
 }
 
@@ -1149,6 +1276,19 @@ func run(c Case) *vkit.Result {
 		res.Grey = true
 		return res
 	}
+	if c.Reuse != nil {
+		p := planOf(c)
+		what := "verifier"
+		if c.RP != nil {
+			what = "rp"
+		}
+		res.Label("reuse:" + what + "/second=" + secondOf(c))
+		if !reflect.DeepEqual(p.now, c.Cfg) {
+			res.Label("reuse:slice-describes-another-configuration-after-construction")
+		} else {
+			res.Label("reuse:slice-unchanged-or-equivalent")
+		}
+	}
 	if len(c.Conc) > 0 {
 		runConc(c, v, res)
 		return res
@@ -1161,14 +1301,14 @@ func run(c Case) *vkit.Result {
 		res.Info = map[string]any{"accepted": si.Accepted, "model": si.Model, "reject": si.Reject, "grey": si.Grey}
 		res.Grey = si.Model == 0
 		res.NonTrivial = si.nontriv
-		res.Key = cfgKey(c.Cfg) + " " + si.key
+		res.Key = cfgKey(c.Cfg) + reuseKey(c) + " " + si.key
 		return res
 	}
 
 	// history on one verifier: every verification is judged by the per-token oracle, with its own t0/t1 bracket
 	steps := append([]Step{{Op: "verify", Tok: &c.Tok}}, c.Steps...)
 	var infos []stepInfo
-	keys := []string{"seq", cfgKey(c.Cfg)}
+	keys := []string{"seq", cfgKey(c.Cfg) + reuseKey(c)}
 	nver, allGrey := 0, true
 	dirty := map[string]bool{} // hash families an application-side hasher was written to (and not reset) so far
 	for i := range steps {
@@ -1187,6 +1327,13 @@ func run(c Case) *vkit.Result {
 					res.Label("seq:valid-at_hash-after-app-hashed-with-same-family")
 				}
 			}
+		} else if s.Op == "overwrite" {
+			// the caller writes into its own slice again; every verifier keeps the configuration it was constructed with
+			if v.keep != nil {
+				v.keep.overwrite(s.Writes)
+			}
+			res.Label("reuse:overwrite-between-verifications")
+			si = stepInfo{Op: s.Op, key: fmt.Sprintf("overwrite%v", s.Writes)}
 		} else {
 			o := execHelper(&s)
 			si = judgeHelper(res, s, o, where)
@@ -1248,7 +1395,7 @@ func runConc(c Case, v *sut, res *vkit.Result) {
 	wg.Wait()
 
 	var infos [][]stepInfo
-	keys := []string{"conc", cfgKey(c.Cfg)}
+	keys := []string{"conc", cfgKey(c.Cfg) + reuseKey(c)}
 	nver, allGrey := 0, true
 	withHash := map[string]int{}
 	for g, steps := range lists {
@@ -1297,7 +1444,7 @@ func tokKey(tok TokenSpec, verdict int, reject, grey []string) string {
 		}
 	}
 	return fmt.Sprintf("v=%d r=%v g=%v aud=%d alg=%s at=%s/%v rel=%d/%d/%d%s",
-		verdict, reject, grey, len(audOf(tok)), tok.Alg, tok.AtHash, tok.WithAT, tok.Exp.Rel, tok.Iat.Rel, tok.AuthTime.Rel, nb)
+		verdict, reject, grey, len(audOf(tok)), tok.Alg, tok.AtHash, tok.WithAT, tok.Exp.Rel, tok.Iat.Rel, tok.AuthTime.Rel, nb+typedKey(tok))
 }
 
 const ruleEntry = "entry point dimension: 40 % of the cases put the verifier inside a RelyingParty built by rp.NewRelyingPartyOIDC + rp.WithVerifierOpts(all generated verifier options) against a fake OP in an http.RoundTripper " +
@@ -1308,14 +1455,22 @@ const ruleEntry = "entry point dimension: 40 % of the cases put the verifier ins
 
 const ruleToken = "verifier config (issuer, client, offset, max iat age, max auth age, nonce mode incl. a nonce function that reads the expected nonce from the context of the call, acr list, alg list) x signed token with 0-3 mutated claim dimensions incl. times at +-{0,1,2,3,5,30,3600}s around each bound; " +
 	"half of the tokens also carry generated neighbour claims the statement does not mention (client_id equal / other party / empty, scope, jti, nbf in the past, amr, sid, c_hash, act, look-alike custom members " +
-	"audience / authorized_party / cid / s_hash / issuer / ...), which the model does not see: they must not change the verdict and must come back with the signed claims"
+	"audience / authorized_party / cid / s_hash / issuer / ...), which the model does not see: they must not change the verdict and must come back with the signed claims; " +
+	"JSON type dimension (mutation 'type'): any of iss, sub, aud (also as array of arrays / array of strings plus a number or null), azp, nonce, acr, amr, at_hash, c_hash, exp, iat, auth_time is present as null / number / 0 / bool / array of the right value / object " +
+	"(times also as decimal or RFC 3339 string): null = absent; a member present with a value that cannot satisfy its condition (iss, aud, azp, nonce with a nonce requirement, acr with an acr policy, at_hash next to an access token) is must-reject; " +
+	"every other member of another JSON type makes the token grey (never must-accept), and such members are left out of the claims comparison"
+
+const ruleReuse = "kept option slices (30 % of the cases, verifier on its own and RelyingParty alike): the harness keeps the []rp.VerifierOption it passes to rp.NewIDTokenVerifier / rp.WithVerifierOpts and the []rp.Option it passes to rp.NewRelyingPartyOIDC (with 0-4 elements of spare capacity), " +
+	"and after the construction, before any verification, overwrites 0-3 generated elements with options of ANOTHER generated configuration; optionally a second verifier / RelyingParty is constructed from the slice as it is then (or, RelyingParty, from the []rp.Option whose WithVerifierOpts element was overwritten with the other configuration's options); " +
+	"histories write into the slice again between verifications; the RelyingParty's verifier is fetched with IDTokenVerifier() at each use; each token goes to the first or the second and is made for that one's configuration (2/3) or for the other one's (1/3); " +
+	"oracle = the per-token model under the configuration in force when that verifier was constructed (options folded in slice order over the constructor defaults)"
 
 var prop = vkit.Prop[Case]{
 	ID: "C01",
 	Rule: "cases = " + ruleToken + "; 60 % one verification on a fresh verifier, 40 % histories of 2-5 verifications (generated tokens, or an earlier token response once more) on ONE verifier in one process, " +
 		"interleaved with 0-2 generated calls of exported helpers a relying party may use (crypto.GetHashAlgorithm + Write [+ Sum] [+ Reset] on the returned hash, oidc.ClaimHash, crypto.HashString, rp.VerifyAccessToken directly), " +
-		"every verification judged by the same per-token oracle with its own t0/t1 bracket; " + ruleEntry + "; histories on one RelyingParty mix the entry points (an earlier token response is re-delivered through another one); " +
-		"non-trivial = >=2 conditions violated or in a tolerance window, or any time within the window, or multi-audience, or a history with >=2 verifications; distinct = (config, per verification: entry point, verdict, violated set, window set, aud size, alg, at_hash class, relative times, client_id neighbour; per helper: op, alg, use)",
+		"every verification judged by the same per-token oracle with its own t0/t1 bracket; " + ruleEntry + "; " + ruleReuse + "; histories on one RelyingParty mix the entry points (an earlier token response is re-delivered through another one); " +
+		"non-trivial = >=2 conditions violated or in a tolerance window, or any time within the window, or multi-audience, or a history with >=2 verifications; distinct = (config, per verification: entry point, verdict, violated set, window set, aud size, alg, at_hash class, relative times, client_id neighbour, members of another JSON type, which verifier of the case; per helper: op, alg, use; kept-slice plan: writes, configuration the slice describes, configuration of the second verifier)",
 	Gen: genCase,
 	Run: run,
 }
@@ -1326,7 +1481,7 @@ var propConc = vkit.Prop[Case]{
 	Rule: "concurrent sub-check (-race binary, GORACE=halt_on_error): 2-6 goroutines with 1-3 steps each (verifications of generated valid and invalid token responses, mostly with access token and at_hash; 1 in 5 an exported helper call) " +
 		"on ONE shared verifier, tokens built and signed before, goroutines released together by a barrier, they only call the library and store what it returned; every verification is judged after all goroutines have ended by the per-token oracle " +
 		"(claims relative to the common t0; a goroutine that finished later than t0+400 ms is grey); a data race report kills the process and the driver reports the case on disk; " +
-		"tokens = " + ruleToken + "; " + ruleEntry + " (all goroutines share the one RelyingParty; the fake OP is stateless, the answer for a call travels in the call's context); non-trivial = >=2 goroutines and >=2 verifications; distinct = (config, per goroutine the verification / helper classes)",
+		"tokens = " + ruleToken + "; " + ruleEntry + " (all goroutines share the one RelyingParty; the fake OP is stateless, the answer for a call travels in the call's context); " + ruleReuse + " (writes only before the goroutines start; they share both verifiers); non-trivial = >=2 goroutines and >=2 verifications; distinct = (config, per goroutine the verification / helper classes)",
 	Gen:   genConcCase,
 	Run:   run,
 	Track: true,
